@@ -47,7 +47,7 @@ for chk in man["checks"]:
     ex = ""
     if t and t["coverage"].get("exhaustive"):
         ex = " (complete)"
-    rows.append(f"| {pid} | {chk['level']} | {cell(q)} | {cell(t)}{ex} |")
+    rows.append(f"| {pid} | {chk['level_claimed']['category']} | {cell(q)} | {cell(t)}{ex} |")
 
 table = "\n".join(
     [
